@@ -72,13 +72,13 @@ def semi_tie(res):
 def run_prop(res, prop, extra_obligations=1):
     sp = SPEC[prop]
     semi = prop in ("C01", "C02")
+    kernels = {"C01": ["semicolon_rule"], "C02": ["semicolon_rule"], "C10": ["whitespace_and_call_options"], "C11": ["quote_choice", "whitespace_and_call_options"]}.get(prop, [])
     t_ok, t_log = True, ""
-    if semi:
-        extra_obligations += 2          # the translation of the semicolon rule, and its tie
-        t_ok, t_log = rs2v("semicolon_rule")
-    if prop == "C11":
-        extra_obligations += 1          # the translation of the quote chooser
-        t_ok, t_log = rs2v("quote_choice")
+    for kname in kernels:               # Tie 1: each kernel the theorems speak about is regenerated from /repo's source
+        extra_obligations += 1
+        k_ok, k_log = rs2v(kname)
+        if not k_ok: t_ok, t_log = False, k_log
+    if semi: extra_obligations += 1     # the semicolon rule's correspondence run
     proof = proof_stage(res, prop, extra_obligations=extra_obligations) if t_ok else dict(ok=False, discharged=0, theorems=[], log=t_log, broken_at="rs2v: " + t_log.strip()[-300:])
     if not t_ok:
         res.coverage.update(obligations=extra_obligations, discharged=0, checker_cmd="rs2v /repo coq/gen", trusted_base=list(TRUSTED_BASE))
